@@ -245,3 +245,20 @@ Definition gate_opts (transpose dagger : bool) : bool * bool :=
    transpose = dagger or transpose`.  Result: (conjugate upper?, conjugate lower?, transposed wiring?) *)
 Definition sandwich_opts (transpose dagger : bool) : bool * bool * bool :=
   (dagger, negb dagger, dagger || transpose).
+
+(* ---- forwarding of the caller's compression options in gate_with_auto_swap ---------- *)
+(* every tensor split the routine performs, as (absorb = "left"?, options it is handed):
+   d = hi-lo-1 swaps towards (swap_site_to downwards: absorb defaults to "left"), one
+   gate_split (absorb per plan), and - with swap_back - d swaps back (absorb "right").
+   ALL of them receive the caller's **compress_opts `o`. *)
+Definition auto_swap_splits {O : Type} (i j : nat) (swap_back : bool) (o : O) : list (bool * O) :=
+  let p := auto_swap_plan i j in
+  let d := ap_hi p - ap_lo p - 1 in
+  repeat (true, o) d ++ [(ap_absorb_left p, o)] ++ (if swap_back then repeat (false, o) d else []).
+
+Fixpoint bn_eqb (a b : list (bool * nat)) : bool :=
+  match a, b with
+  | [], [] => true
+  | (x, n) :: a', (y, m) :: b' => Bool.eqb x y && Nat.eqb n m && bn_eqb a' b'
+  | _, _ => false
+  end.
